@@ -505,4 +505,19 @@ theorem sync_batches_partition_lines (batchSize : Nat) (data : Bytes) (script : 
 example : ((syncRun 2 [97, 13, 10, 98, 10, 10, 99] [⟨1, none⟩, ⟨0, none⟩, ⟨9, some .fail⟩]).batches.map
     fun b => (b.start, b.lines.map (·.2))) = [(1, [[97], [98]]), (3, [[], [99]])] := by decide
 
+/-- Once `Scan()` has answered false it keeps answering false and changes nothing (`ReadLine()` keeps
+    returning nil): no further `Read` is issued, no callback fires again, no line re-appears. -/
+theorem done_is_final (n : Nat) (data : Bytes) (script : List Step) (g : Nat) :
+    (1 ≤ n → (Imm.run n data script).2.2.scan g = (.done, (Imm.run n data script).2.2)) ∧
+    (2 ≤ n → 0 < g → (Buf.run n data script).2.2.scan g = (.done, (Buf.run n data script).2.2)) :=
+  ⟨fun h => scanAll_final _ _ (run_good n data script h) (imm_terminates n data script h) g,
+   fun h hg => bscanAll_final _ (by omega) _ (brun_good n data script h) (buf_terminates n data script h) g hg⟩
+
+/-- Every `Read` the immediate scanner issues has a non-empty destination (the regrow guarantees
+    `end < len(buf)`), so a conforming reader cannot answer `(0, nil)` for lack of room. -/
+theorem imm_read_room_positive (s : Imm) (C : Bytes) (h : Inv s C) :
+    0 < s.grown.cap - s.grown.buf.length := by
+  have := (grown_spec h).2.2.1
+  omega
+
 end Rare.C04
